@@ -267,7 +267,12 @@ func (t *Thread) processIncomingInterest(packet *defn.Pkt) {
 				// This is not the fastest way to do it, but simplifies everything
 				// significantly. We can optimize this later.
 				csData, csWire, err := csEntry.Copy()
-				if csData != nil && csWire != nil {
+				if csData != nil && csWire != nil && incomingFace.Scope() == defn.NonLocal &&
+					len(csData.NameV) > 0 && bytes.Equal(csData.NameV[0].Val, LOCALHOST) {
+					// Cached /localhost Data cannot be returned to a non-local face,
+					// so this is not a usable hit: continue as a cache miss.
+					core.LogDebug(t, "CS match ", csData.NameV, " is /localhost for non-local face - MISS")
+				} else if csData != nil && csWire != nil {
 					packet.L3.Data = csData
 					packet.L3.Interest = nil
 					packet.Raw = csWire
